@@ -80,6 +80,19 @@ class ShapeEval:
         self.seqs: Dict[str, List[Seg]] = {}
         self.shape_names = set()
         self.known: Dict[str, int] = {}
+        # local helpers `def dim(axis): return tensor.shape[axis]`
+        self.getters = set()
+        for n in f.node.body:
+            if isinstance(n, ast.FunctionDef) and len(n.args.args) == 1 and len(n.body) == 1 and isinstance(n.body[0], ast.Return):
+                r = n.body[0].value
+                if isinstance(r, ast.Subscript) and self.is_shape(r.value) and is_name(r.slice, n.args.args[0].arg):
+                    self.getters.add(n.name)
+
+    def _norm(self, e):
+        """getter(i) -> tensor.shape[i]"""
+        if isinstance(e, ast.Call) and isinstance(e.func, ast.Name) and e.func.id in self.getters and len(e.args) == 1:
+            return ast.Subscript(value=ast.Attribute(value=ast.Name(id=self.tensor, ctx=ast.Load()), attr="shape", ctx=ast.Load()), slice=e.args[0], ctx=ast.Load())
+        return e
 
     # integers -----------------------------------------------------------------------
     def int_of(self, e) -> Lin:
@@ -129,9 +142,13 @@ class ShapeEval:
             return list(self.seqs[e.id])
         if isinstance(e, (ast.List, ast.Tuple)):
             out = []
+            has_m1 = any(isinstance(x, ast.UnaryOp) and isinstance(x.op, ast.USub) and isinstance(x.operand, ast.Constant) and x.operand.value == 1 for x in e.elts)
             for x in e.elts:
+                x = self._norm(x)
                 if isinstance(x, ast.UnaryOp) and isinstance(x.op, ast.USub) and isinstance(x.operand, ast.Constant) and x.operand.value == 1:
                     out.append(Seg("minus1", lin(1)))
+                elif has_m1:
+                    out.append(Seg("mode", lin(1)))  # written next to the -1: part of the unfolded block
                 elif isinstance(x, ast.Subscript) and self.is_shape(x.value):
                     out.append(Seg("mode", lin(1)))
                 else:
@@ -139,6 +156,12 @@ class ShapeEval:
             return out
         if isinstance(e, ast.Call) and call_name(e) in ("list", "tuple") and e.args:
             return self.seq_of(e.args[0])
+        if isinstance(e, ast.IfExp):
+            t, neg = e.test, False
+            if isinstance(t, ast.UnaryOp) and isinstance(t.op, ast.Not):
+                t, neg = t.operand, True
+            if isinstance(t, ast.Name) and t.id in self.flags:
+                return self.seq_of(e.body if self.flags[t.id] != neg else e.orelse)
         if isinstance(e, ast.BinOp) and isinstance(e.op, ast.Add):
             return self.seq_of(e.left) + self.seq_of(e.right)
         if isinstance(e, ast.Subscript) and isinstance(e.slice, ast.Slice) and self.is_shape(e.value) and e.slice.step is None:
@@ -164,9 +187,10 @@ class ShapeEval:
         if isinstance(e, (ast.ListComp, ast.GeneratorExp)) and len(e.generators) == 1 and not e.generators[0].ifs:
             g = e.generators[0]
             it = g.iter
-            if isinstance(it, ast.Call) and is_name(it.func, "range") and isinstance(g.target, ast.Name) and isinstance(e.elt, ast.Subscript) and self.is_shape(e.elt.value):
+            elt = self._norm(e.elt)
+            if isinstance(it, ast.Call) and is_name(it.func, "range") and isinstance(g.target, ast.Name) and isinstance(elt, ast.Subscript) and self.is_shape(elt.value):
                 i = g.target.id
-                idx = e.elt.slice
+                idx = elt.slice
                 a = it.args
                 if len(a) == 1 and is_name(idx, i):
                     return [Seg("lead", self.int_of(a[0]))]  # shape[0], ..., shape[k-1]
@@ -275,6 +299,9 @@ def skip_arity(ctx: Ctx, rule="SKIP-ARITY"):
                 trail: Lin = {}
                 for s in segs[i + 1:]:
                     trail = l_add(trail, s.length)
+                unknown = [s for s in segs[:core_start] + segs[i + 1:] if s.length and s.kind == "other"]
+                if unknown:
+                    raise AnalysisError(f"{rule}: {q} [{label}]: the target shape contains entries the symbolic shape domain cannot attribute to an axis ({unknown[0]!r}); cannot decide")
                 bad_lead_kind = [s for s in segs[:core_start] if s.length and s.kind != "lead"]
                 bad_trail_kind = [s for s in segs[i + 1:] if s.length and s.kind != "trail"]
                 exp_lead = l_subst(lin(**{lead_p: 1}), lead_p, 0) if not flags[lead_p] else lin(**{lead_p: 1})
